@@ -1371,10 +1371,31 @@ pub fn c05_lattice(ctx: &mut Ctx) {
     let sets = ["one", "two", "five", "thirty-seven", "five-hundred", "long-first", "five-thousand", "repeating"];
     let limits = [1usize, 2, 7, 100, 4usize << 30];
     let containers = ["fasta", "fasta-w1", "fasta-w3", "fasta-w60", "fastq", "fasta-gz", "fastq-gz"];
-    let delims = [" ", ",", "\t"];
+    let delims = [" ", ",", "\t", "::"];
     let mut sh = ctx.shard;
     let mut n = 0u64;
     let thorough = ctx.thorough();
+    // the full cross product on a reduced domain (quick and thorough): every combination of container, writer,
+    // batch limit, header, delimiter and thread count on one record set
+    {
+        let recs = c05_record_set("thirty-seven");
+        for container in ["fasta", "fasta-w3", "fastq", "fastq-gz"] {
+            for writer in ["mmap", "batch"] {
+                for limit in [1usize, 7, 4 << 30] {
+                    for header in [false, true] {
+                        for delim in [" ", "::", ","] {
+                            for threads in [1usize, 3, 16] {
+                                if sh.mine() {
+                                    c05_config(ctx, "thirty-seven", &recs, 3, container, threads, limit, writer, header, delim);
+                                    n += 1;
+                                }
+                            }
+                        }
+                    }
+                }
+            }
+        }
+    }
     for set in sets {
         let recs = c05_record_set(set);
         let k = if set == "long-first" { 2 } else { 3 };
